@@ -146,7 +146,7 @@ SubsWhy(subs, k, st, s, incl, strict) ==
                         ELSE SubsWhy(subs, k + 1, next1, s, incl, strict)
                    ELSE IF ~unchanged THEN "a failed set_raw_name changed the message"
                    \* a packet cannot grow beyond 65535 bytes
-                   ELSE IF good /\ u.e = "Packet too large" /\ USize(a) - WireLen(rs[st.idx].n) + WireLen(NewLabels(u.arg)) > 65535
+                   ELSE IF good /\ USize(a) - WireLen(rs[st.idx].n) + WireLen(NewLabels(u.arg)) > 65535
                         THEN (IF ~stay THEN "after a failed set_raw_name the cursor no longer designates its record" ELSE SubsWhy(subs, k + 1, next1, s, incl, strict))
                    ELSE IF good /\ ~mayFail /\ strict THEN "set_raw_name rejected a valid name: " \o u.e
                    ELSE IF ~stay THEN "after a failed set_raw_name the cursor no longer designates its record"
